@@ -138,6 +138,9 @@ def _check_tg(case, exact):
             summ.append("R")
             continue
         if st == "exc":
+            if exact == "loose" and isinstance(r, PE) and any(k == "I" and ival.tiny_features(x[0]) for (k, _, _), x in zip(tiers, exps)):
+                summ.append("T")  # a one-ulp interval / gap closed by rounding and was refused: legitimate (as at tier level)
+                continue
             viols.append(Viol("insertSpace-raised:" + type(r).__name__, f"{tag} on {tiers} raised {r!r}"))
             continue
         msg = None
@@ -228,6 +231,11 @@ def parts(tier):
                 for s0 in ugrid:
                     for d in (0.1, 0.5):
                         yield (e, ugrid[0], ugrid[-1], s0, d)
+        for lo, hi, g in D.ulp_spans()[1:]:      # spans whose end / start has its ulp neighbour inside
+            for s_ in D.interval_sets(g, 2):
+                for s0 in g:
+                    for d in (0.1, 0.5):
+                        yield (D.labelled(s_, "abc"), lo, hi, s0, d)
 
     ps.append(InputPart("insertSpace-intervals-ulp", gen_ulp, lambda c: _check_iv(c, "loose"),
                         rule="interval sets and insertion points on the ulp-neighbour grid %s: an entry ending one ulp after s straddles it, one "
@@ -345,6 +353,22 @@ def parts(tier):
                         for d in (0.3, 1.7):
                             yield (tiers, 0.1, 1.1, s0, d)
 
+    def gen_tg_ulp():
+        # the textgrid-level entry point on the ulp-neighbour grid: whatever Textgrid.insertSpace does to its arguments before handing them to the
+        # tiers, an insertion point one ulp inside the end (or start) is inside
+        # spans: the whole grid, and spans whose end / start has its ulp neighbour INSIDE the span (0.7999999999999999 < 0.8, 0.3 < 0.30000000000000004)
+        for lo, hi in ((ugrid[0], ugrid[-1]), (ugrid[0], ugrid[4]), (ugrid[1], ugrid[-1]), (ugrid[1], ugrid[4])):
+            g = tuple(x for x in ugrid if lo <= x <= hi)
+            for s_ in D.interval_sets(g, 2):
+                for pts in ((), (g[0], g[-1]), (g[1], g[-2])):
+                    tiers = (("I", "a", D.labelled(s_, "abc")), ("P", "p", D.labelled_points(pts)))
+                    for s0 in g:
+                        for d in (0.1, 0.5):
+                            yield (tiers, lo, hi, s0, d)
+
+    ps.append(InputPart("insertSpace-textgrid-ulp", gen_tg_ulp, lambda c: _check_tg(c, "loose"),
+                        rule="2-tier textgrids (interval sets of up to 2 intervals; points at / one ulp inside the ends) and insertion points on the ulp-neighbour grid "
+                             "%s x d x 4 modes through Textgrid.insertSpace: tier-wise model comparison" % (ugrid,), bounds={"oracle": "structural+1e-9"}))
     ps.append(InputPart("insertSpace-textgrid", gen_tg, lambda c: _check_tg(c, c[1] == 0.0),
                         rule="3-tier textgrids x s x d x 4 modes: tier-wise model comparison, span + d, validate() True",
                         bounds={"tiers": 3}))
